@@ -1,5 +1,6 @@
 """K7 case generator: backtest configurations and synthetic CSV markets."""
 import datetime as dtm
+import common
 import math
 
 EPOCH = dtm.date(1970, 1, 1)
@@ -133,15 +134,17 @@ def gen_case(rng, family='any'):
                 # data starting later than (or exactly at) the entry date
                 late[syms[i]] = max(0, (e // 86400 - day_of(d0)) + rng.choice([-2, 0, 0, 3]) + 10)
         uni = {'dynamic': dates}
-        alpha = {'single': rng.choice([1.0, 0.5])} if rng.random() < 0.7 else {'fixed': [[a, rng.uniform(0.1, 1)] for a in assets]}
+        alpha = {'single': rng.choice([1.0, 0.5, 1, 2])} if rng.random() < 0.7 else {'fixed': [[a, rng.uniform(0.1, 1)] for a in assets]}
     else:
         k = rng.choice(['momentum', 'invvol']) if not rotation else 'momentum'
         n = rng.choice([1, 2, 3, 5])
         if rotation:
-            lo = True
+            lo = rng.random() < 0.65
         if k == 'momentum':
             signals = [['mom', [n]], ['sma', [rng.choice([2, 5])]]]
             alpha = {'momentum': n}
+            if rng.random() < (0.6 if rotation else 0.3):
+                alpha['walk'] = 'signal'      # weights emitted in the order of the signal's own asset list
         else:
             signals = [['vol', [n]]]
             alpha = {'invvol': n}
@@ -150,10 +153,12 @@ def gen_case(rng, family='any'):
             # two assets admitted at the same instant after the start, one of them not yet priced for a few days
             kk = rng.randrange(3, 10)
             e = (day_of(d0) + kk) * 86400 + CLOSE + rng.choice([0, 0, 1, 4500])
-            dates = [[a, start - 86400] for a in assets[:-2]] + [[a, e] for a in assets[-2:]]
+            m_ = rng.choice([2, 2, 3, 4])
+            dates = [[a, start - 86400] for a in assets[:-m_]] + [[a, e] for a in assets[-m_:]]
             uni = {'dynamic': dates}
             late = dict(late or {})
-            late[syms[-1 if rng.random() < 0.5 else -2]] = 10 + kk + rng.randrange(1, 4)
+            if rng.random() < 0.6:
+                late[syms[-1 if rng.random() < 0.5 else -2]] = 10 + kk + rng.randrange(1, 4)
             reb = 'weekly'
         elif rng.random() < 0.4:
             dates = [[a, (start - 86400 if rng.random() < 0.4 else (day_of(d0) + rng.randrange(0, max(1, nd))) * 86400 + rng.choice([CLOSE, CLOSE, OPEN + 60, 40000, CLOSE + 1, CLOSE + 60, 80100, 86399]))] for a in assets]
@@ -199,6 +204,11 @@ def gen_case(rng, family='any'):
         case['start_us'] = rng.choice([1, 250000, 999999])      # a start carrying microseconds: the session is that of the whole second
     if spikes:
         case['spike_days'] = sorted(set(day_of(dtm.date.fromisoformat(x)) for x in spikes))
+    if case.get('burn') is not None and rng.random() < 0.3:
+        # the burn-in instant expressed in another time zone (the same instant; zones in which it falls on the same calendar date)
+        zs = [z for z in common.ZONES if common.ts_in(case['burn'], z).date() == common.ts(case['burn']).date()]
+        if zs:
+            case['burn_tz'] = rng.choice(zs)
     # the console-output switch (settings.PRINT_EVENTS) is on for some sessions: what a session does never depends on it
     case['loud'] = rng.random() < 0.25
     return case
